@@ -279,4 +279,44 @@ theorem run_cancel_prefix (c : Cfg) (k : Nat) (hc : CancelCfg c k) (hd : DomainL
       · exact Or.inr rfl
     · exact ⟨pre.flatten, blk, hcalls, hlt, hge, hone blk (by rw [hT]; simp)⟩
 
+/-! ### the same as a function of the trace (`cancelOutcome`, Spec/WalkCount.lean) -/
+
+theorem cancelOutcome_never (k : Nat) : ∀ (T : List (List Call)) (x : Nat), x + openedCount T.flatten < k →
+    cancelOutcome k x T = (T.flatten, .none, T.length)
+  | [], x, _ => rfl
+  | b :: T, x, h => by
+    simp only [List.flatten_cons, openedCount_append] at h
+    simp only [cancelOutcome]
+    rw [if_neg (by omega), cancelOutcome_never k T (x + openedCount b) (by omega)]
+    simp
+
+theorem cancelOutcome_split (k : Nat) (blk : List Call) (post : List (List Call)) :
+    ∀ (pre : List (List Call)) (x : Nat), x + openedCount pre.flatten < k →
+      k ≤ x + openedCount pre.flatten + openedCount blk →
+      cancelOutcome k x (pre ++ blk :: post) =
+        (pre.flatten ++ blk, (if post = [] then .none else .ctx), pre.length + 1 + (if post = [] then 0 else 1))
+  | [], x, _, h2 => by
+    simp only [List.flatten_nil, openedCount_nil, Nat.add_zero] at h2
+    simp only [List.nil_append, cancelOutcome]
+    rw [if_pos h2]
+    simp
+  | b :: pre, x, h1, h2 => by
+    simp only [List.flatten_cons, openedCount_append] at h1 h2
+    simp only [List.cons_append, cancelOutcome]
+    rw [if_neg (by omega), cancelOutcome_split k blk post pre (x + openedCount b) (by omega) (by omega)]
+    simp only [List.flatten_cons, List.append_assoc, List.length_cons, Prod.mk.injEq, true_and]
+    omega
+
+/-- **Cancellation, exact outcome**: the attempts, the error and the visited-inode count of the scan are
+those `cancelOutcome` reads off the specification's trace. -/
+theorem run_cancel_outcome (c : Cfg) (k : Nat) (hc : CancelCfg c k) (hd : DomainLaw c.giMatch) (roots : List (Node × Faults)) :
+    ((run c roots).calls, (run c roots).err, (run c roots).visited) = cancelOutcome k 0 (traceScan c roots) := by
+  obtain ⟨hfl, _, h1, h2⟩ := run_cancel c k hc hd roots
+  by_cases h : openedCount (mustExtract c roots) < k
+  · have := h1 h
+    rw [cancelOutcome_never k _ 0 (by rw [hfl]; omega), hfl, this.1, this.2.1, this.2.2, traceScan_length]
+  · obtain ⟨pre, blk, post, hT, hlt, hge, hcalls, herr, hvis⟩ := h2 (by omega)
+    rw [openedCount_append] at hge
+    rw [hT, cancelOutcome_split k blk post pre 0 (by omega) (by omega), hcalls, herr, hvis]
+
 end Scalibr.Walk
